@@ -256,7 +256,22 @@ def main(argv):
     chk.rule = ('one obligation per data codeword (plus every panic/overflow obligation met) per (version, level, mode, length) cell with '
                 'all payload bytes symbolic; non-trivial = obligation has free variables; distinct by (cell, length, index)')
     chk.load()
-    chk.run_kani([{'harness': 'c06_cci_bits', 'key': 'C06/cci-bits', 'confirm': None,
+    def confirm_cci(values, native):
+        v, m = values[0] % 40, values[1] % 3
+        data = {0: b'12345', 1: b'AB12 ', 2: b'hello'}[m]
+        req = 'encode %s 0 %d %d' % (OV.hexs(data), m, v)
+        ans = native.ask(req)
+        if ans.startswith('PANIC') or ans == 'ABORT':
+            return True, 'encode panics: %s' % ans[:80], {'request': req}
+        f = OV.parse_fields(ans)
+        dc = iso.data_codewords(v + 1, 'L')
+        nat = list(bytes.fromhex(f['data']))[:dc]
+        ref = iso.encode_codewords(v + 1, 'L', iso.MODES[m], list(data))
+        if nat != ref:
+            return True, ('character-count field of %s mode at version %d has the wrong width: data codewords of %r start %s, ISO 7.4 gives %s'
+                          % (iso.MODES[m], v + 1, data, bytes(nat[:4]).hex(), bytes(ref[:4]).hex())), {'request': req}
+        return False, 'kani counterexample (version %d, %s) not reproduced' % (v + 1, iso.MODES[m]), {'request': req}
+    chk.run_kani([{'harness': 'c06_cci_bits', 'key': 'C06/cci-bits', 'confirm': confirm_cci,
                    'symbolic': 'version index < 40, mode index < 3'}])
     native_path = chk.ov.native(chk.features)
     jobs = []
